@@ -485,6 +485,6 @@ def check_pdhg(case):
 
 
 PARTS = [
-    Part("gm", check_gm, {"quick": 12800, "thorough": 30000}, strategy=st_gm),
-    Part("pdhg", check_pdhg, {"quick": 12800, "thorough": 30000}, strategy=st_pdhg),
+    Part("gm", check_gm, {"quick": 12800, "thorough": 150000}, strategy=st_gm),
+    Part("pdhg", check_pdhg, {"quick": 12800, "thorough": 150000}, strategy=st_pdhg),
 ]
